@@ -20,16 +20,24 @@ Definition call_end_clears_last_completed : bool :=
 Definition fresh_start_resets_counter : bool :=
   has "self.reset_progress()" init_comms_tail && has "self._task_idx = 0" reset_progress_body.
 
+(* a map call also resets the counter when it STARTS (after the workers are ensured, before the first chunk): tasks
+   submitted with apply_async since the last call took numbers too *)
+Definition call_start_resets_counter : bool :=
+  has "self._worker_comms.reset_progress()" imap_unordered_start && has "self._task_idx = 0" reset_progress_body.
+(* apply tasks are routed by the same function, hence consume numbers while ordering is on or no result came back yet *)
+
 Record ost := mkOst { comms_order : bool; task_idx : nat; wanted : bool (* ghost: what the user last asked for *) }.
-Inductive oop := SetOrder (b : bool) | Call (nchunks : nat).
+Inductive oop := SetOrder (b : bool) | Call (nchunks : nat) | ApplyTasks (k : nat).
 
 (* observation of a call: the counter value its first chunk sees, the flag the distribution uses,
    and what the user had asked for *)
 Definition ostep (s : ost) (o : oop) : ost * option (nat * bool * bool) :=
   match o with
   | SetOrder b => (mkOst (if setter_reaches_comms then b else comms_order s) (task_idx s) b, None)
-  | Call k => (mkOst (comms_order s) (if call_end_resets_counter then 0 else task_idx s + k) (wanted s),
-               Some (task_idx s, comms_order s, wanted s))
+  | Call k => let start := if call_start_resets_counter then 0 else task_idx s in
+              (mkOst (comms_order s) (if call_end_resets_counter then 0 else start + k) (wanted s),
+               Some (start, comms_order s, wanted s))
+  | ApplyTasks k => (mkOst (comms_order s) (task_idx s + k) (wanted s), None)
   end.
 
 Fixpoint orun (s : ost) (h : list oop) : list (nat * bool * bool) :=
